@@ -172,6 +172,67 @@ func ruleE2(c *Ctx) []Ob {
 	} else {
 		s.bad("unknownFields.Reset:body", "-", "(*unknownFields).Reset not found")
 	}
+	// Add records exactly the extent it is given: sz += sz', offs = append(offs, {off, sz'}), nothing conditional
+	if fn := c.Func(pkgReflect, "(*unknownFields).Add"); fn != nil && len(fn.Params) == 3 {
+		p, off, sz := fn.Params[0].Name(), fn.Params[1], fn.Params[2]
+		sumOK, appOK := false, false
+		for _, b := range fn.Blocks {
+			for _, ins := range b.Instrs {
+				st, ok := ins.(*ssa.Store)
+				if !ok {
+					continue
+				}
+				switch path(st.Addr) {
+				case p + ".sz":
+					if bo, ok := st.Val.(*ssa.BinOp); ok && bo.Op == token.ADD && path(bo.X) == p+".sz" && bo.Y == ssa.Value(sz) {
+						sumOK = true
+					}
+				case p + ".offs":
+					if call, ok := st.Val.(*ssa.Call); ok && isBuiltin(call, "append") && path(call.Call.Args[0]) == p+".offs" {
+						// appended element {off: off, sz: sz}
+						if sl, ok := call.Call.Args[1].(*ssa.Slice); ok {
+							if al, ok := sl.X.(*ssa.Alloc); ok {
+								got := map[string]ssa.Value{}
+								for _, r := range referrers(al) {
+									ia, ok := r.(*ssa.IndexAddr)
+									if !ok {
+										continue
+									}
+									for _, rr := range referrers(ia) {
+										switch y := rr.(type) {
+										case *ssa.FieldAddr:
+											for _, r3 := range referrers(y) {
+												if s3, ok := r3.(*ssa.Store); ok {
+													got[fieldName(y.X.Type(), y.Field)] = s3.Val
+												}
+											}
+										case *ssa.Store:
+											// whole struct value stored: built in a local
+											if ld, ok := y.Val.(*ssa.UnOp); ok {
+												for _, r4 := range referrers(ld.X) {
+													if fa, ok := r4.(*ssa.FieldAddr); ok {
+														for _, r5 := range referrers(fa) {
+															if s5, ok := r5.(*ssa.Store); ok {
+																got[fieldName(fa.X.Type(), fa.Field)] = s5.Val
+															}
+														}
+													}
+												}
+											}
+										}
+									}
+								}
+								appOK = got["off"] == ssa.Value(off) && got["sz"] == ssa.Value(sz)
+							}
+						}
+					}
+				}
+			}
+		}
+		s.check(sumOK && appOK && len(fn.Blocks) == 1, "unknownFields.Add:body", c.Pos(fn.Pos()), "Add records exactly (off, sz) and adds sz to the total", "Add does not simply record the extent it is given (conditional merging or different values): the bytes copied out later would not be the skipped fields in message order")
+	} else {
+		s.bad("unknownFields.Add:body", "-", "(*unknownFields).Add not found")
+	}
 	return s.obs
 }
 
